@@ -29,7 +29,7 @@ CLAUSES = {
     40: ('C18', 'VisitRequestBound'), 41: ('C18', 'RetriedAfterTriesExhausted'), 42: ('C18', 'EndedWithPendingWork'),
     43: ('C18', 'ErrorRowLeftBelowTries'), 44: ('C18', 'TryCountBeyondLimit'),
     50: ('C03', 'DoneRefetched'), 51: ('C03', 'StuckInProgress'), 52: ('C03', 'RowLost'), 53: ('C03', 'NeverRequested'),
-    54: ('C03', 'RowsNotFinalAfterResume'),
+    54: ('C03', 'RowsNotFinalAfterResume'), 55: ('C03', 'RefetchedInResumedRun'),
 }
 # a hang is a termination failure of whichever property the scenario belongs to
 HANG_PROP = {'C01': 'C01', 'C03': 'C03', 'C18': 'C18', 'C20': 'C20'}
@@ -47,8 +47,8 @@ def conv_events(ev):
         elif k == 'exit':
             c = e.get('code', 0)
             e = {'e': 'exit', 'code': c if isinstance(c, int) and c >= 0 else 99}
-        elif k == 'rows':
-            continue
+        elif k in ('rows', 'ddl'):
+            continue        # ('ddl': schema statements - crash points only)
         out.append(e)
     return out
 
